@@ -61,6 +61,7 @@ func C13(c *Ctx) {
 	R15ConfigOrder(c)
 	R15EnumFam(c)
 	R15ErrDiscipline(c)
+	R8UTF16Encoder(c)
 	R15PackVerbatim(c)
 	R15WorkingHours(c)
 	R15NoCarry(c)
@@ -191,6 +192,7 @@ func C01(c *Ctx) {
 }
 
 func C03(c *Ctx) {
+	R2DecoderCovers(c)
 	R2KeyPresent(c)
 	R14TableReach(c)
 	R2DecryptOnce(c)
@@ -225,6 +227,7 @@ func C02(c *Ctx) {
 	R8Terminators(c)
 	R8Pivot(c)
 	R14Commands(c)
+	R8UTF16Encoder(c)
 	R8SizeField(c)
 	R8UnwrittenElement(c)
 	R15WorkingHours(c)
@@ -301,6 +304,7 @@ func C07(c *Ctx) {
 	R7PathContain(c)
 	R7FileID(c)
 	R7FileIDDecode(c)
+	R7CloseReasons(c)
 	R7LootHandle(c)
 }
 
@@ -325,6 +329,7 @@ func C18(c *Ctx) {
 	R19Climb(c)
 	R19Eval(c)
 	R19NumberExact(c)
+	R19InnermostScope(c)
 }
 
 func C20(c *Ctx) {
@@ -332,6 +337,8 @@ func C20(c *Ctx) {
 	R20Serialise(c)
 	R20TokenOwnership(c)
 	R20ItemPairing(c)
+	R20NumberExact(c)
+	R20PassOrder(c)
 }
 
 func C17(c *Ctx) {
@@ -353,4 +360,6 @@ func C17(c *Ctx) {
 	}
 	R1Bounds(c, tp, "-template", 8)
 	R21TemplateEnd(c)
+	R21ScanOrigin(c)
+	R21RangeAssigned(c)
 }
